@@ -841,6 +841,44 @@ def run_common(r, obs):
             verdict(obs, got3 == exp3, "common-type-call-differs:later-source-called-early",
                     "a Split of Sources used through %s yields %r; calling each Source when the "
                     "previous one is exhausted gives %r" % (how, got3, exp3))
+        # branches that are different objects but compare equal (lena sequences and elements
+        # such as CountFrom, Slice, Chain, Sum compare by value): each is a branch of its own
+        import lena.flow
+        import lena.math
+
+        def eq_src():
+            return lena.core.Source(lena.flow.CountFrom(0), lena.flow.Slice(3))
+
+        def eq_fc():
+            return (lena.flow.Slice(2), lena.math.Sum())
+        inc = gen.func("inc")
+        for name, mkbranches, flow3, exp3 in (
+                ("equal Sources", lambda: [eq_src(), (inc,), eq_src()], [10, 20],
+                 [0, 1, 2, 11, 21, 0, 1, 2]),
+                ("equal Sources, one block each", lambda: [eq_src(), eq_src(), (inc,)], [10],
+                 [0, 1, 2, 0, 1, 2, 11]),
+                ("equal stopping fill/compute branches", lambda: [eq_fc(), eq_fc(), (inc,)],
+                 [0, 0, 0, 0], [0, 0, 1, 1, 1, 1]),
+                ("equal fill/compute branches", lambda: [(lena.math.Sum(),), (lena.math.Sum(),)],
+                 [1, 2], [3, 3])):
+            for b3 in (1, 2, 1000):
+                try:
+                    got3 = list(lena.core.Split(mkbranches(), bufsize=b3).run(iter(flow3)))
+                except Exception as e:  # pylint: disable=broad-except
+                    got3 = "raised %r" % (e,)
+                obs.count("common_type_runs")
+                want = exp3
+                if name == "equal stopping fill/compute branches":
+                    # both stop at the third value; per-value branch results lie between blocks
+                    want = None
+                    ok3 = isinstance(got3, list) and sorted(map(repr, got3)) == sorted(
+                        map(repr, exp3)) and got3.count(0) == 2
+                elif name == "equal Sources" and b3 == 1:
+                    ok3 = got3 == [0, 1, 2, 11, 0, 1, 2, 21]
+                else:
+                    ok3 = got3 == want
+                verdict(obs, ok3, "run-branch-result:branches-that-compare-equal",
+                        "Split of %s, bufsize=%r, over %r yields %r" % (name, b3, flow3, got3))
         verdict(obs, callable(sp), "common-type-method-missing:source:__call__", "not callable")
         real = frozen(sp())
         model = frozen(itertools.chain(*[t() for t in twins]))
